@@ -25,3 +25,31 @@ BASE_TRUST = [
     'translator extract/c2lean.py + clang-14 AST (validated every run by differential execution against the compiled C)',
     'platform: LP64, 8-bit bytes, two\'s complement, little-endian branch of the code, IEEE-754 floats',
 ]
+
+
+def mapkv_lines(tier='quick'):
+    """maps assembled with the two halves of cbor_map_add used separately: any pair, not only the last, may still lack its value when the map is released"""
+    import itertools
+    pats = set()
+    for n in range(1, 6 if tier == 'thorough' else 5):
+        for units in itertools.product(('k', 'kv'), repeat=n): pats.add(''.join(units))
+    pats |= {'k' * 9 + 'kv' * 3, 'kv' * 8 + 'k' + 'kv' * 8, 'k' + 'kv' * 17}
+    return ['MAPKV %d %s' % (d, p) for p in sorted(pats, key=lambda x: (len(x), x)) for d in (0, 1)]
+
+
+def mapkv_check(ctx, env=None):
+    """C-only: sizes as assembled, and once the map is released no block obtained for it, its keys or its values remains"""
+    lines = mapkv_lines()
+    out, rc, err = core.run_lines(ctx.harness, lines, env=env)
+    if rc != 0:
+        i, l, e = core.first_crash_line(ctx.harness, lines, env=env)
+        return [{'input': l, 'expected': 'a result', 'observed': 'implementation aborted', 'why': e[-800:]}]
+    fails = []
+    for l, o in zip(lines, out):
+        ctx.count(l, o); ctx.bump('MAPKV')
+        pat = l.split()[2]; nk = pat.count('k'); nv = pat.count('v')
+        exp = 'size=%d novalue=%d' % (nk, nk - nv)
+        if not o.startswith(exp + ' before=') or not o.endswith(' after=0'):
+            fails.append({'input': l, 'expected': exp + ' before=<n> after=0', 'observed': o,
+                          'why': 'a map whose pairs were added key first, value later: wrong size, or blocks obtained from the allocator remain after the map was released'})
+    return fails
